@@ -24,7 +24,8 @@ func (purityStream) TrivialTags() []string {
 	return []string{"nodes0", "nodes1", "nodes2", "nodes3", "nodes4"}
 }
 
-const purityRoot = "/tmp/cdi-verif-purity"
+// per-process scratch root: concurrent runs of the harness must not share a tree
+var purityRoot = scratchRoot("/tmp/cdi-verif-purity")
 
 // a host state: name -> kind index into hostKinds
 var hostKinds = []hostNode{{"c", 1, 3}, {"c", 226, 7}, {"b", 7, 1}, {"b", 8, 16}, {"p", 0, 0}, {"other", 0, 0}, {"missing", 0, 0}}
